@@ -3,6 +3,24 @@
 import json, os
 
 CLAIMED = {
+    "C05": ("Coq proof of exact coverage by ensure_active_values on the container model (Cover.v) + domain theorems of C14 + implementation-level check of every issued trial on the four real oracles",
+            "C05_exactly_active: for any search space in which parents precede children and names are distinct (C13_parents_first shows build programs produce such spaces) and ANY input values, after "
+            "ensure_active_values - which Oracle._record_values applies to every new trial of every oracle kind - a name has a value iff its entry is active; names outside the space (tuner/*) are untouched. "
+            "Domain membership of what prob_to_value/values/default produce: C14. The per-oracle production of values is not modelled here (grid: C09, Hyperband: C10): on every run each trial issued by the real "
+            "random/grid/Hyperband/Bayesian oracles over generated spaces (all kinds, conditions to depth 4, spaces growing during the search) is checked for exact coverage and domain.",
+            "Trusted: Coq kernel; the container model is tied to HyperParameters by the C13 correspondence; distinct names assumed; Bayesian oracle runs the real GP.", "DESIGN.md section 6 C05"),
+    "C12": ("differential replay in fresh interpreters (different PYTHONHASHSEED and global seeds) + the models being functions of the seeded sample table only",
+            "Every scenario (seeded worker-pool histories on the four real oracles with hyperparameters discovered inside trials, Hyperband promotions after the space grew, tuner constructions over "
+            "declaration trees with sibling conditional scopes) is replayed in three fresh interpreters; issued ids, values (exact float bits) and the discovered space must coincide. On the Coq side the oracle models "
+            "(LifeCorr/Rand/Discover) are total functions whose only random input is the seeded table samp(seed_state): after the repair of ensure_active_values there is no unseeded stream left in the model "
+            "(Discover.populate_initial is instantiated with draw := default), so determinism is definitional; the correspondences of C06/C13 show the implementation is that function.",
+            "Trusted: python harness; two/three runs can miss a dependence that happens to coincide; Bayesian oracle uses the real seeded GP (two-run comparison only).", "DESIGN.md section 6 C12"),
+    "C13": ("Coq proof on the container model Space.v/Discover.v (lookup semantics, parents-first invariant over all build programs, new-entry flags) + differential correspondence with HyperParameters and BaseTuner construction",
+            "C13_declare_* / C13_get / C13_contains: what declaring and reading return (assigned value if known and active, default if unknown, None if the conditions do not hold; ValueError vs KeyError). "
+            "C13_parents_first(_inv): in every container any build program produces - name scopes and conditional scopes nested to any depth, eager or if-guarded - each entry's condition parents are registered earlier. "
+            "C13_new_entries: tune_new_entries / allow_new_entries. PARTIAL: termination and completeness of _populate_initial_space are not proved; the real tuner constructor is compared with Discover.v (discovered space, "
+            "values, number of builds, outcome) on generated programs incl. shared names, under all four flag settings.",
+            "Trusted: Coq kernel/vm_compute; python harness; raw names contain no '/'; kinds enter the model through name, conditions and default only.", "DESIGN.md section 6 C13"),
     "C14": ("Coq proof: exact layer (Z/Q) + IEEE-754 binary64 layer over Flocq (FloatIndex.v, HpFloat.v) + bit-exact correspondence; libm-dependent kinds checked on the implementation only",
             "C14_float_index_range / C14_float_index_roundtrip: for EVERY finite binary64 probability in [0,1) and 1 <= n < 2^53 the float computation floor(p / fl(1/n)) clamped lies in [0,n), and the bucket centre "
             "(i+0.5)*fl(1/n) maps back to i (n < 2^50). Hence at the float level: Int with linear sampling and any step always yields a lattice point min+i*step within [min,max] (C14_int_in_domain), every lattice value "
